@@ -137,6 +137,12 @@ func (e *Encoder) encode(rv reflect.Value) error {
 		}
 	case reflect.Array, reflect.Slice:
 		if rv.Type().Elem().Kind() == reflect.Uint8 {
+			if rv.Kind() == reflect.Array && !rv.CanAddr() {
+				// Bytes needs addressable array -> work on a copy
+				rv_ := reflect.New(rv.Type()).Elem()
+				rv_.Set(rv)
+				rv = rv_
+			}
 			return e.encodeByteArray(rv.Bytes())
 		} else if t, ok := rv.Interface().(Tuple); ok {
 			return e.encodeTuple(t)
